@@ -3,7 +3,7 @@ import os
 from framework import REPO, ROOT
 from props import C09 as e3
 
-TIE = ["Nsq.Tie.ProtoHttp", "Nsq.Tie.ProtoHttpFull"]
+TIE = ["Nsq.Tie.ProtoHttp", "Nsq.Tie.ProtoHttpFull", "Nsq.Tie.ConnsStats"]
 PROPS = ["Nsq.Props.C10", "Nsq.Props.C10Full", "Nsq.Props.C10Char"]
 HARNESS = e3.HARNESS + ["e3/audit10_test.go"]
 
@@ -208,6 +208,7 @@ def run(ctx):
                 "consumed, broker; oracle: no handler consumes more than max(max-msg-size,max-body-size)+1 bytes; interrupted "
                 "requests on the real listener")
     gen_ok, _ = ctx.gen("e3_proto")
+    ctx.gen("e3_conns")   # tcpServer.Handle's conns.Store vs the type assertions of GetStats / Close (Tie.ConnsStats)
     ok, log = ctx.lean_build(TIE + PROPS)
     if not ok:
         ctx.lean_obligation_failed("lake build " + " ".join(TIE + PROPS), log[-1500:])
@@ -264,6 +265,7 @@ def run(ctx):
     if binp:
         full_leg(ctx, binp, corr_broken)
         audit_leg(ctx, binp, corr_broken)
+    e3.halfopen_leg(ctx, corr_broken)   # /stats while TCP connections have not completed the protocol magic
     if (ctx.broken_ties or corr_broken) and not ctx.violations:
         ctx.broken_without_input(ctx.broken_ties + corr_broken,
                                  "search: %d generated operations, the 500/twin-topic/size oracles found no request on "
